@@ -188,6 +188,48 @@ pub proof fn lemma_prod_one_left(ai: int, a_s: int, bi: int, bs: int)
     assert(bi * pow10(a_s) == pow10(a_s) * bi) by (nonlinear_arith);
 }
 
+
+/// r == a^3
+pub open spec fn is_cube(ri: int, rs: int, ai: int, a_s: int) -> bool {
+    let m = imax(rs, 3 * a_s);
+    val_at(ri, rs, m) == val_at(ai * ai * ai, 3 * a_s, m)
+}
+/// zero and one are their own cubes; the exact cube is a cube
+pub proof fn lemma_cube_cases(ai: int, a_s: int)
+    ensures ai == 0 ==> is_cube(ai, a_s, ai, a_s),
+            same_val(ai, a_s, 1, 0) ==> is_cube(ai, a_s, ai, a_s),
+            is_cube(ai * ai * ai, a_s * 3, ai, a_s)
+{
+    if ai == 0 {
+        let m = imax(a_s, 3 * a_s);
+        assert(0int * 0int * 0int == 0);
+        b_val_at_zero(a_s, m); b_val_at_zero(3 * a_s, m);
+    }
+    if same_val(ai, a_s, 1, 0) {
+        lemma_one_val(ai, a_s);
+        let p = pow10(a_s);
+        let m = 3 * a_s;
+        // val_at(p, a_s, 3 a_s) = p * 10^(2 a_s) = p*p*p = val_at(p^3, 3 a_s, 3 a_s)
+        lemma_pow10_add(a_s, a_s);
+        assert(val_at(ai, a_s, m) == p * pow10(2 * a_s));
+        assert(p * (p * p) == p * p * p) by (nonlinear_arith);
+        b_val_at_self(ai * ai * ai, m);
+    }
+    b_val_at_self(ai * ai * ai, 3 * a_s);
+}
+pub proof fn lemma_even_sign(i: int)
+    requires i % 2 == 0
+    ensures 2 * tdiv(i, 2) == i
+{
+    if i >= 0 { lemma_fundamental_div_mod(i, 2); }
+    else {
+        lemma_fundamental_div_mod(i, 2);
+        let d = i / 2;
+        assert(i == 2 * d);
+        lemma_fundamental_div_mod_converse(-i, 2, -d, 0);
+    }
+}
+
 /// every shape a multiplication result takes in the crate: exact product, an operand (or anything equal
 /// to it, e.g. its normalized form) when the other operand equals one, zero when an operand is zero
 pub broadcast proof fn b_mul_cases(ri: int, rs: int, ai: int, a_s: int, bi: int, bs: int)
